@@ -13,3 +13,14 @@ for _nv, _tiers in ((3, ('quick', 'thorough')), (4, ('quick', 'thorough')), (5, 
       out='non-grid coordinates (floating rounding near the boundary), more vertices than the bound',
       assumptions=['coordinates are integers with |v| <= 2^20: every +,-,* result is an integer below 2^53 (discharged as "exact" obligations) so the real-arithmetic verdict transfers to IEEE doubles; the single division is only compared (DESIGN 1.4 lemma)'])
 
+
+_C20PTUS = ['src/Polygon/Polygons.cpp', 'src/Basic/Utilities.cpp'] + _C20TUS
+for _np, _tiers in ((1, ('quick', 'thorough')), (2, ('quick', 'thorough')), (3, ('quick', 'thorough')), (4, ('thorough',))):
+    K('C20.c.%d' % _np, property='C20', engine='symex', harness='C20/polyset.cpp', entries=['k_polygons_inside_2d', 'k_polygons_inside_3d', 'k_inside3d'],
+      tus=_C20PTUS, defines={'all': {'VF_NPOL': _np}}, tiers=_tiers,
+      bounds={'quick': '%d polygon elements; per element: arbitrary 2-D answer, each vertical limit absent or any level; query 2-D or 3-D with z undefined or any level; union and nested rules' % _np},
+      timeout_ms={'quick': 60000, 'thorough': 300000}, validate={'quick': 40, 'thorough': 100},
+      what='Polygons::inside, Polygons::getClosedPolyElem, PolyElem::inside3D/closePolyElem/_isClosed, copy constructors: union / odd-count rule with vertical limits',
+      out='the 2-D test itself (C20.a); db_polygon sample loop; convex hull',
+      stubs=['PolyElem::inside -> arbitrary boolean per element (identified by its first vertex)'],
+      assumptions=['undefined value is TEST=1.234e30 (FFFF(x) is x > 1e30 in the NaN-free reading)'])
